@@ -1,7 +1,7 @@
 """C09 - existing line breaks are kept and paragraphs wrap independently."""
 from ..sym import sym_of, subterms, overlaps
 from ..engine import AnchorMissing, loop_models
-from ..poly import poly, fact_nf
+from ..poly import poly, fact_nf, GT0, GE0, EQ0, NE0
 from ..paths import loop_system, PathView, fn_paths, contradictory
 from ..describe import describe
 from .. import lemmas
@@ -214,8 +214,8 @@ def _join(prog, rep):
         nfs = [fact_nf(f) for f in tr.facts if f[0][0] == "cmp"]
         evs = [(n, a[1]) for (_b, n, a, _r) in tr.events]
         site = site_of_block(body, tr.path[-2])
-        later = ("gt0", poly(i)) in nfs
-        first = ("ge0", -poly(i)) in nfs or ("eq0", poly(i)) in nfs
+        later = GT0(poly(i)) in nfs
+        first = GE0(-poly(i)) in nfs or EQ0(poly(i)) in nfs
         if not (later or first):
             r.check(False, "branch", "", "", "a path of the join loop does not test i > 0", site=site)
             continue
